@@ -371,6 +371,10 @@ impl BTreeTable {
 
 #[cfg(pdb_verif)]
 impl BTreeTable {
+	pub(crate) fn verif_table_stats(&self) -> Vec<(u8, u64, u64, u64, u16)> {
+		self.tables.read().iter().filter_map(|t| t.verif_stats()).collect()
+	}
+
 	pub(crate) fn verif_digest(&self, h: &mut crate::verif::Hasher) {
 		let tables = self.tables.read();
 		for t in tables.iter() {
